@@ -11,6 +11,18 @@ CHECKS = {
          "Program Specs from the types and sql profiles are analysed by the real gomacro, each of the three Go generators (sqlcrud with generate-sets on/off) is run, the import-fixing pass the tool applies is run, and the result is type-checked with go/types next to the source package. Exploration: held on every generated accepted input; known findings are excluded by construction and counted.",
          "Trusts go/types + x/tools/imports as the definition of 'compiles'; in-process loader cross-checked against analysis.LoadSource; lib/pq replaced by a signature-level stand-in.",
          "DESIGN.md §4 C01"),
+ "C02": ("PBT (rapid, two levels): generated programs compiled with the real gounions output; round-trip + differential against a reference encoder validated against encoding/json",
+         "Programs with unions in every documented position are compiled together with the generated wrappers; a reflection harness draws values of every analysed type, checks Unmarshal(Marshal(v)) == v (nil == empty) and compares the wire bytes as a JSON tree with a reference encoder ({Kind,Data} for union components, encoding/json rules on the original struct). Exploration.",
+         "The reference encoder is cross-checked in every run against the real encoding/json on all union-free types (a disagreement is inconclusive, never a verdict); nil union values are outside the statement.",
+         "DESIGN.md §4 C02"),
+ "C03": ("PBT (rapid, two levels): cross-language inhabitant check of Go-emitted JSON documents against the parsed TypeScript declarations (internal/tsx)",
+         "The TypeScript output of generated programs is parsed (syntax, every name declared exactly once, every mentioned name declared) and every JSON document emitted by the compiled Go package for every analysed type is checked as a structural inhabitant of the declaration (exact key sets, optional keys, primitive kinds, null only where admitted, tuple lengths, enum literal sets, Kind/Data shapes, Record key kinds). Exploration.",
+         "No tsc offline: TypeScript is judged by the purpose-built parser and inhabitant relation of internal/tsx (two-sided rule: impossible text is a verdict, valid-but-unmodelled text is inconclusive).",
+         "DESIGN.md §4 C03"),
+ "C09": ("PBT (rapid): ground truth from the real encoding/json by executing the analysed package; key-set comparison across analysis / TypeScript / Dart / SQL validator; metamorphic pairs",
+         "For union-free programs over every tag spelling and embedding, the compiled package marshals an all-non-zero value of every struct; the key set is compared with Exported()/JSONName() and with the keys parsed out of the TypeScript interface, the Dart fromJson/toJson and the validator's key list; a metamorphic pair (ignored field added/removed/retyped) must leave the three outputs byte-identical. Exploration.",
+         "Ground truth is encoding/json itself; Dart/TS/SQL keys are read with the purpose-built parsers (internal/dartx, tsx, pgx).",
+         "DESIGN.md §4 C09"),
  "C10": ("PBT (rapid): generated const-declaration styles vs reference enum table carried by the generator",
          "Enum-stress programs (every declaration style of the quantifier, sub-packages, same names in two packages) are analysed and every observable named basic type is compared with the expected member table (names, exact values, trailing comments, opt-outs) and both directions of the iota flag. Exploration.",
          "Expected values are computed by the synthesiser from the iota form it wrote, not by go/types; only types reachable from the analysed file are observable.",
@@ -23,6 +35,10 @@ CHECKS = {
          "Programs with recursion, aliases, generics, sub-package and std types are analysed; an independent walk over go/types decides closure of Analysis.Types, kind/length/key/element of every node, Type() identity modulo predefined time types, every link, termination (write-ahead case + fresh-process confirmation for fatal stack overflows) and source order. Exploration.",
          "go/types is the ground truth for the Go side; union members come from the Spec model.",
          "DESIGN.md §4 C12"),
+ "C15": ("PBT (rapid): generated programs compiled with the real randdata output; every rand<T>() executed repeatedly, results walked by reflection against the Spec's enum/union tables; JSON round trip",
+         "Every generated random function of every generated program is called 40 times under a reduced maximal stack; results must be well-formed (exported enum constants, non-nil union members, populated containers, skipped fields zero), vary when the type admits more than one value, and survive the JSON round trip; a dead child (stack overflow) is a verdict. Exploration.",
+         "Termination is observed, not proved: runaway recursion shows up as a fatal stack overflow within the reduced stack; 'admits more than one value' is decided conservatively by reflection.",
+         "DESIGN.md §4 C15"),
  "C18": ("PBT (rapid): hostile program generator, recovered panic classified runtime.Error vs diagnostic; worker death detected through a write-ahead case",
          "Hostile-profile programs (legal unusual spellings + unsupported forms in every position, plus sql-profile model files) go through analysis and seven generator stages under recover; a runtime.Error or a dead worker is a violation, any other panic value a diagnostic. Exploration.",
          "A panic value implementing runtime.Error is a crash, anything else is an explicit diagnostic; typescript/api is exercised by C13/C14.",
